@@ -51,6 +51,7 @@ func (cr *concRun) analyse(out *ConcOutcome) {
 	cr.checkEvents()
 	cr.checkLoads()
 	cr.checkJoinedFinishedLoad()
+	cr.checkGetResultProduced()
 	cr.checkStaleLoad()
 	cr.checkLoadRemovedNewerWrite()
 	cr.checkCompute()
@@ -1653,5 +1654,25 @@ func (cr *concRun) checkJoinedFinishedLoad() {
 				}
 			}
 		}
+	}
+}
+
+// checkGetResultProduced (C08: a waiter "receives its result"; C10: "a successful load caches the
+// value and returns it"): a Get that returns without error returns a value that somebody produced
+// for that key - an explicit write or a loader call. A waiter that is released with nothing (zero
+// value, nil error) because the loader it waited for panicked or failed has received no result.
+func (cr *concRun) checkGetResultProduced() {
+	var ins map[int]*installInfo
+	for _, h := range cr.hist {
+		if !h.Done || h.Op.Kind != "load" || h.Res.Panic || h.Res.Err != "" {
+			continue
+		}
+		if ins == nil {
+			ins = cr.installs() // explicit writes and the values of successful loader calls
+		}
+		if info := ins[h.Res.V]; info != nil && info.k == h.Op.K {
+			continue
+		}
+		cr.fail(P("C08", "C10"), "load.result-not-produced", h.Op.K, "Get of key %d by task %d ([%d,%d]) returned (%d, nil): no write and no successful loader call produced that value for that key", h.Op.K, h.Task, h.Call, h.Ret, h.Res.V)
 	}
 }
